@@ -561,6 +561,7 @@ func (r *Runner) cmd(ctx context.Context, cm syntax.Command) {
 			r.cmd(ctx, cm.Else)
 		}
 	case *syntax.WhileClause:
+		var bodyCode uint8 // exit status of the last body iteration, if any
 		for !r.stop(ctx) {
 			oldNoErrExit := r.noErrExit
 			r.noErrExit = true
@@ -569,7 +570,15 @@ func (r *Runner) cmd(ctx context.Context, cm syntax.Command) {
 
 			stop := r.exit.ok() == cm.Until
 			r.exit.clear()
-			if stop || r.loopStmtsBroken(ctx, cm.Do) {
+			if stop {
+				if r.exit.ok() {
+					r.exit.code = bodyCode
+				}
+				break
+			}
+			broken := r.loopStmtsBroken(ctx, cm.Do)
+			bodyCode = r.exit.code
+			if broken {
 				break
 			}
 		}
